@@ -5,9 +5,7 @@ package main
 
 import (
 	"encoding/json"
-	"fmt"
 	"os"
-	"os/exec"
 	"strings"
 
 	"verif/mc/e3drive"
@@ -68,7 +66,7 @@ func main() {
 			replayRace(r, strings.TrimPrefix(f.Case.Scenario, "race:"), f.Signature, 300)
 		}
 		if strings.HasPrefix(f.Case.Scenario, "q/") {
-			os.Exit(runMemBinary("-replay", r.Replay))
+			os.Exit(harness.RunPartBinary("mem", "-replay", r.Replay))
 		}
 	}
 	r.Assume = []string{
@@ -85,61 +83,7 @@ func main() {
 		iters = 2000
 	}
 	racePass(r, iters)
-	memPart(r)
+	// memory effects across queues on the real driver middleware + CP + DMA engines (see checks/c12/mem)
+	r.RunPart("mem")
 	r.Finish()
-}
-
-// runMemBinary runs the auxiliary binary of the memory-effects part (plain
-// build: uninstrumented driver and akita under the E1/E4 explorer) with the
-// standard streams passed through.
-func runMemBinary(args ...string) int {
-	cmd := exec.Command(os.Args[0]+"-mem", args...)
-	cmd.Stdout, cmd.Stderr = os.Stdout, os.Stderr
-	if err := cmd.Run(); err != nil {
-		if ee, ok := err.(*exec.ExitError); ok {
-			return ee.ExitCode()
-		}
-		fmt.Fprintln(os.Stderr, "memory-effects part:", err)
-		return 2
-	}
-	return 0
-}
-
-// memPart: "each command observes all memory effects of its predecessors in
-// its queue; other queues never disturb its data" on the real driver copy
-// middleware + command processor + DMA engines (see checks/c12/mem).
-func memPart(r *harness.Run) {
-	os.Remove(harness.Dir() + "/evidence/parts/C12.mem.json")
-	rc := runMemBinary("-tier", r.Tier)
-	p, err := harness.ReadPart("C12", "mem")
-	if err != nil || rc == 2 || rc > 2 {
-		r.Infra("memory-effects part: exit %d, evidence: %v", rc, err)
-		return
-	}
-	if rc == 1 {
-		r.NoteExternalViolations(p.Violations, "memory-effects part")
-	}
-	if kh, ok := p.Coverage["known_findings_reobserved"].([]any); ok {
-		for _, k := range kh {
-			r.NoteKnownHit(fmt.Sprint(k))
-		}
-	}
-	delete(p.Coverage, "known_findings_reobserved")
-	r.Cov["memory_effects_part"] = p.Coverage
-	add := func(k string) {
-		a, _ := r.Cov[k].(int64)
-		if f, ok := r.Cov[k].(int); ok {
-			a = int64(f)
-		}
-		if b, ok := p.Coverage[k].(float64); ok {
-			r.Cov[k] = a + int64(b)
-		}
-	}
-	for _, k := range []string{"evaluations", "states", "transitions", "traces_validated_against_impl", "distinct_nontrivial"} {
-		add(k)
-	}
-	if ex, ok := p.Coverage["exhaustive"].(bool); ok && !ex {
-		r.Cov["exhaustive"] = false
-	}
-	r.Assume = append(r.Assume, p.Assume...)
 }
